@@ -385,6 +385,14 @@ impl Expression for ExpressionAssign {
                 Ok(v) => match right_result {
                     Err(err) => Err(err),
                     Ok(right_arc) => {
+                        if Arc::ptr_eq(&v.arc, &right_arc.arc) {
+                            // Assignment of a value to itself: locking both sides would dead-lock on the same mutex.
+                            return if v.is_readonly() {
+                                Err(format!("Can't set read-only {v}"))
+                            } else {
+                                Ok(v.clone())
+                            };
+                        }
                         let right_guard = right_arc.lock().unwrap();
                         match right_guard.deref() {
                             Data::Integer(_)
@@ -451,6 +459,10 @@ impl Expression for ExpressionAssignUndefined {
             match left_result {
                 Err(err) => Err(err),
                 Ok(left_value) => {
+                    if Arc::ptr_eq(&left_value.arc, &right_result.arc) {
+                        // Same object on both sides: nothing to copy, and locking twice would dead-lock.
+                        return Ok(left_value.clone());
+                    }
                     right_result
                         .lock()
                         .unwrap()
